@@ -43,20 +43,64 @@ func startWorker() *worker {
 	return &worker{cmd, in, bufio.NewReaderSize(outp, 1<<22)}
 }
 
-func (w *worker) run(c CaseIn) (CaseOut, error) {
+// run: the answer of the worker, or an error if the worker process ended or did not answer in time
+func (w *worker) run(c CaseIn, limit time.Duration) (CaseOut, error) {
 	data, _ := json.Marshal(c)
 	if _, err := w.in.Write(append(data, '\n')); err != nil {
-		return CaseOut{}, err
+		return CaseOut{}, fmt.Errorf("worker died: %v", err)
 	}
-	line, err := w.out.ReadBytes('\n')
+	type answer struct {
+		line []byte
+		err  error
+	}
+	ch := make(chan answer, 1)
+	go func() {
+		line, err := w.out.ReadBytes('\n')
+		ch <- answer{line, err}
+	}()
+	select {
+	case a := <-ch:
+		if a.err != nil {
+			return CaseOut{}, fmt.Errorf("worker died: %v", a.err)
+		}
+		var o CaseOut
+		if err := json.Unmarshal(a.line, &o); err != nil {
+			return CaseOut{}, fmt.Errorf("worker died: %v", err)
+		}
+		return o, nil
+	case <-time.After(limit):
+		w.cmd.Process.Kill()
+		return CaseOut{}, fmt.Errorf("worker hung: no result after %v", limit)
+	}
+}
+
+// caseLimit: a fault-free run takes well under a second, a silent device costs the time-outs of the
+// scenario (1 s / 3 s times the factor), a few of them in a row
+func caseLimit(c CaseIn) time.Duration {
+	k := c.TScale
+	if k < 1 {
+		k = 1
+	}
+	return time.Duration(12+8*k) * time.Second
+}
+
+// runOne: the case on worker *w in a directory of its own.  If the worker ends or blocks (the code
+// under test called os.Exit, crashed the runtime, hangs) the outcome is what the simulator
+// journalled in that directory, and a new worker is started.
+func runOne(w **worker, c CaseIn) CaseOut {
+	work, err := os.MkdirTemp("", "c11case")
 	if err != nil {
-		return CaseOut{}, err
+		panic(err)
 	}
-	var o CaseOut
-	if err := json.Unmarshal(line, &o); err != nil {
-		return CaseOut{}, err
+	defer os.RemoveAll(work)
+	c.Work = work
+	o, err := (*w).run(c, caseLimit(c))
+	if err != nil {
+		(*w).stop()
+		o = recoverOutcome(c, work, err.Error())
+		*w = startWorker()
 	}
-	return o, nil
+	return o
 }
 
 func (w *worker) stop() {
@@ -85,13 +129,7 @@ func runAll(cases []CaseIn, n int) []CaseOut {
 			w := startWorker()
 			defer func() { w.stop() }()
 			for i := range idx {
-				o, err := w.run(cases[i])
-				if err != nil {
-					o = CaseOut{Exit: 2, Panic: "worker died: " + err.Error(), FaultAt: -1}
-					w.stop()
-					w = startWorker()
-				}
-				outs[i] = o
+				outs[i] = runOne(&w, cases[i])
 			}
 		}()
 	}
@@ -390,7 +428,7 @@ const rerunScale = 5
 // envClass: "" or why the outcome of the run says nothing about the code under test
 func envClass(c CaseIn, o CaseOut) string {
 	all := strings.ToLower(o.Panic + "\n" + o.Stderr + "\n" + o.Log + "\n" + o.Stdout)
-	if strings.Contains(o.Panic, "worker died") || strings.Contains(o.Panic, "bad case json") {
+	if strings.HasPrefix(o.Panic, "worker died") || strings.HasPrefix(o.Panic, "worker hung") || strings.Contains(o.Panic, "bad case json") {
 		return "worker_died"
 	}
 	for _, m := range []string{"/dev/ptmx", "no space left on device", "resource temporarily unavailable",
@@ -445,20 +483,20 @@ func runSerial(cases []CaseIn, deadline time.Time) ([]CaseOut, []bool) {
 		if time.Now().After(deadline) {
 			break
 		}
-		o, err := w.run(c)
-		if err != nil {
-			o = CaseOut{Exit: 2, Panic: "worker died: " + err.Error(), FaultAt: -1}
-			w.stop()
-			w = startWorker()
-		}
-		outs[i], done[i] = o, true
+		outs[i], done[i] = runOne(&w, c), true
 	}
 	return outs, done
 }
 
+// hard: a fact about what the DEVICE received or about its state — a change or save sent under
+// compare, the state hash changed, a start-up file copied, a change log written, a line outside the
+// compare vocabulary, configuration mode misused.  No pty shortage, time-out or dead worker can make
+// the code send something: a hard finding is reported from whichever run shows it, whatever the
+// environment did to that run, and is never re-judged.
 type finding struct {
 	sig  map[string]any
 	what string
+	hard bool
 }
 
 type judgement struct {
@@ -469,6 +507,15 @@ type judgement struct {
 }
 
 func (j judgement) bad() bool { return j.impl != j.model || j.roBroken || len(j.fails) > 0 }
+
+func (j judgement) hard() bool {
+	for _, f := range j.fails {
+		if f.hard {
+			return true
+		}
+	}
+	return false
+}
 
 // evalCases: scripts via real compare runs, then real runs, model runs, comparison, oracle.
 func evalCases(ctx *Ctx, res *Result, drv *Nadrv, cases []CaseIn, nw int, verbose bool) {
@@ -596,36 +643,37 @@ func evalCases(ctx *Ctx, res *Result, drv *Nadrv, cases []CaseIn, nw int, verbos
 
 		// ---- oracle 1: the device's own view (devstate.go)
 		if o.Panic != "" {
-			j.fails = append(j.fails, finding{map[string]any{"pred": "go_panic", "backend": b}, "runtime panic: " + o.Panic})
+			j.fails = append(j.fails, finding{map[string]any{"pred": "go_panic", "backend": b}, "runtime panic: " + o.Panic, false})
 		}
 		for k, kd := range o.Kinds {
 			if kd == "change" || kd == "save" {
 				j.fails = append(j.fails, finding{map[string]any{"pred": "compare_sent_" + kd, "backend": b},
-					fmt.Sprintf("compare sent %q, which the device executes as a %s (line %d of the dialogue)", o.Lines[k], kd, k+1)})
+					fmt.Sprintf("compare sent %q, which the device executes as a %s (line %d of the dialogue)", o.Lines[k], kd, k+1), true})
 				break
 			}
 		}
 		if o.Hash0 != "" && o.Hash1 != "" && o.Hash0 != o.Hash1 {
 			j.fails = append(j.fails, finding{map[string]any{"pred": "device_state_changed", "backend": b},
-				fmt.Sprintf("state hash of the device before %s, after %s", o.Hash0, o.Hash1)})
+				fmt.Sprintf("state hash of the device before %s, after %s", o.Hash0, o.Hash1), true})
 		}
 		if o.Scp {
-			j.fails = append(j.fails, finding{map[string]any{"pred": "compare_copied_startup_file", "backend": b}, "compare executed scp"})
+			j.fails = append(j.fails, finding{map[string]any{"pred": "compare_copied_startup_file", "backend": b}, "compare executed scp", true})
 		}
 		if o.Change {
 			j.fails = append(j.fails, finding{map[string]any{"pred": "compare_wrote_change_log", "backend": b},
-				"compare created the .change log of an approve run"})
+				"compare created the .change log of an approve run", true})
 		}
 		// ---- oracle 2: the Lean specification's vocabulary on the real transcript
 		v := drv.Ask("VOCAB\t" + b + "\t" + strings.Join(implSends, "\x1f"))
 		vm := parseModel(v)
 		if vm["ok"] != "1" {
 			j.fails = append(j.fails, finding{map[string]any{"pred": "line_outside_compare_vocabulary", "backend": b},
-				"the real compare run sent a line that NA.Spec.C11.allowedLines does not contain: " + v})
+				"the real compare run sent a line that NA.Spec.C11.allowedLines does not contain: " + v, true})
 		}
 		if vm["blk"] == "bad" || (vm["blk"] != "out" && o.Exit == 0) {
 			j.fails = append(j.fails, finding{map[string]any{"pred": "config_mode_not_only_terminal_width", "backend": b},
-				"in configuration mode the real compare run sent something else than the terminal width, or it ended inside configuration mode: " + v})
+				"in configuration mode the real compare run sent something else than the terminal width, or it ended inside configuration mode: " + v,
+				vm["blk"] == "bad"})
 		}
 		j.blk = vm["blk"]
 		if !(c.FaultKind == "close" && !isHTTP(b)) && m["blk"] != vm["blk"] {
@@ -655,12 +703,17 @@ func evalCases(ctx *Ctx, res *Result, drv *Nadrv, cases []CaseIn, nw int, verbos
 	// could not be re-run, or whose re-run failed for lack of resources again, is inconclusive if
 	// the environment explains its outcome and is reported as it is otherwise.
 	inconclusive := map[int]string{}
+	hardOnly := map[int]bool{} // only the hard findings of the case are reported (the model had no proper input)
 	var suspects []int
 	for i := range cases {
 		if e, ok := envScen[cases[i].Scen.ID]; ok {
-			inconclusive[i] = "no_reference_run:" + e
-		} else if js[i].bad() {
-			suspects = append(suspects, i)
+			if js[i].hard() {
+				hardOnly[i] = true
+			} else {
+				inconclusive[i] = "no_reference_run:" + e
+			}
+		} else if js[i].bad() && !js[i].hard() {
+			suspects = append(suspects, i) // a case with a hard finding is final as it is
 		}
 	}
 	if len(suspects) > 0 {
@@ -702,23 +755,26 @@ func evalCases(ctx *Ctx, res *Result, drv *Nadrv, cases []CaseIn, nw int, verbos
 				}
 				res.Count("rerun_serial")
 				j2 := judge(cs[k], os2[k])
-				if !j2.bad() {
+				switch e2 := envClass(cs[k], os2[k]); {
+				case j2.hard():
+					// a fact about the device, whichever run shows it
+					outs[i], js[i] = os2[k], j2
+					delete(inconclusive, i)
+				case !j2.bad():
+					// A re-run can confirm a verdict, it cannot replace one: the first run looked
+					// wrong, this one does not — the case is not judged (counted, no evaluation).
 					if first == "" {
 						first = "unexplained"
 					}
-					res.Count("first_run_not_reproduced:" + first)
-					outs[i], js[i] = os2[k], j2
-					delete(inconclusive, i)
-					continue
-				}
-				switch e2 := envClass(cs[k], os2[k]); {
-				case e2 == "resources" || e2 == "worker_died":
+					inconclusive[i] = "first_run_not_reproduced:" + first
+				case e2 == "resources":
 					inconclusive[i] = e2
 					next = append(next, i)
 				case e2 != "" && round == 0:
-					// a time-out with 5 s / 15 s, serially: once more with 10 s / 30 s; a time-out that
-					// shows three times, the last two alone on a worker, is the code's
+					// a dead / hung worker or a time-out with 5 s / 15 s, serially: once more with
+					// 10 s / 30 s; what shows three times, the last two alone on a worker, is the code's
 					outs[i], js[i] = os2[k], j2
+					delete(inconclusive, i)
 					next = append(next, i)
 				default:
 					// reproduced with long time-outs, alone on a worker: reported, in the form that reproduces
@@ -729,6 +785,14 @@ func evalCases(ctx *Ctx, res *Result, drv *Nadrv, cases []CaseIn, nw int, verbos
 			pending = next
 		}
 	}
+	nInc := 0
+	for i := range inconclusive {
+		if !js[i].hard() {
+			nInc++
+		}
+	}
+	res.CountN("cases_planned", len(cases))
+	res.CountN("cases_inconclusive", nInc)
 
 	for i, c := range cases {
 		o := outs[i]
@@ -739,7 +803,7 @@ func evalCases(ctx *Ctx, res *Result, drv *Nadrv, cases []CaseIn, nw int, verbos
 		if kind == "" {
 			kind = "-"
 		}
-		if why, ok := inconclusive[i]; ok {
+		if why, ok := inconclusive[i]; ok && !j.hard() {
 			// says nothing about the code: neither an evaluation nor a disagreement
 			res.Count("inconclusive:" + why)
 			if verbose {
@@ -757,14 +821,16 @@ func evalCases(ctx *Ctx, res *Result, drv *Nadrv, cases []CaseIn, nw int, verbos
 			res.Count(fmt.Sprintf("fault_pos:%02d", c.FaultPos))
 		}
 		res.TracesVsImpl++
-		if j.impl != j.model {
+		if j.impl != j.model && !hardOnly[i] {
 			res.Disagree("c11-compare-session", c, j.impl, j.model)
 		}
 		if j.roBroken {
 			res.Disagree("c11-model-readonly", c, "n/a", j.ans)
 		}
 		for _, f := range j.fails {
-			res.Fail(f.sig, f.what, c)
+			if f.hard || !hardOnly[i] {
+				res.Fail(f.sig, f.what, c)
+			}
 		}
 		if o.Hash0 == "" || o.Hash1 == "" {
 			res.Count("state_hash_missing")
